@@ -167,7 +167,22 @@ func (e *Engine) callOpaque(st *State, f OpaqueFn, args []Value, res ssa.Value, 
 			return []*State{st}
 		}
 	}
-	panic(unsupported("call of opaque function value with signature " + sig.String()))
+	// general case: an unknown function. Recorded as a trace event "fn.call";
+	// it is assumed not to touch this module's state (like extern interfaces).
+	var rv Value
+	switch sig.Results().Len() {
+	case 0:
+	case 1:
+		st.havocAlloc()
+		rv = e.freshValue(st, "ret_fn", sig.Results().At(0).Type())
+	default:
+		st.havocAlloc()
+		rv = e.freshValue(st, "ret_fn", sig.Results())
+	}
+	e.eventRes(st, "fn.call", flat, e.flat(rv))
+	e.trustedUsed["call of an unknown function value: modelled as a trace event fn.call; assumed not to touch tally state"] = true
+	setRes(st, res, rv)
+	return []*State{st}
 }
 
 // ---------------------------------------------------------------------------
@@ -282,16 +297,16 @@ func (e *Engine) appendOp(st *State, cc *ssa.CallCommon, args []Value, pos token
 			// explicit element stores
 			cur := Ite(fits, oldRes, e.copiedPrefix(st, inner, sOld, s.Off, s.Len))
 			for k := int64(0); k < n; k++ {
-				cur = Store(cur, Add(Add(resOff, s.Len), IntLit(k)), Select(src, Add(add.Off, IntLit(k))))
+				cur = Store(cur, IX(resOff, Add(s.Len, IntLit(k))), Select(src, IX(add.Off, IntLit(k))))
 			}
 			st.setHeapArr(ks.Key, Store(a, resArr, cur))
 		} else {
 			na := e.ctx.Fresh("app_cont", inner)
 			j := T("j!q", SInt)
 			st.assume(Forall([]Term{j}, Implies(And(Le(IntLit(0), j), Lt(j, s.Len)),
-				Eq(Select(na, Add(resOff, j)), Select(sOld, Add(s.Off, j))))))
+				Eq(Select(na, IX(resOff, j)), Select(sOld, IX(s.Off, j))))))
 			st.assume(Forall([]Term{j}, Implies(And(Le(IntLit(0), j), Lt(j, add.Len)),
-				Eq(Select(na, Add(Add(resOff, s.Len), j)), Select(src, Add(add.Off, j))))))
+				Eq(Select(na, IX(resOff, Add(s.Len, j))), Select(src, IX(add.Off, j))))))
 			// in-place append leaves the rest of the array untouched
 			st.assume(Implies(fits, Forall([]Term{j}, Implies(Or(Lt(j, Add(s.Off, s.Len)), Ge(j, Add(s.Off, newLen))),
 				Eq(Select(na, j), Select(oldRes, j))))))
@@ -331,7 +346,7 @@ func (e *Engine) copyOp(st *State, cc *ssa.CallCommon, args []Value, pos token.P
 		s := Select(a, src.Arr)
 		j := T("j!q", SInt)
 		st.assume(Forall([]Term{j}, Implies(And(Le(IntLit(0), j), Lt(j, n)),
-			Eq(Select(na, Add(dst.Off, j)), Select(s, Add(src.Off, j))))))
+			Eq(Select(na, IX(dst.Off, j)), Select(s, IX(src.Off, j))))))
 		st.assume(Forall([]Term{j}, Implies(Or(Lt(j, dst.Off), Ge(j, Add(dst.Off, n))),
 			Eq(Select(na, j), Select(d, j)))))
 		st.setHeapArr(ks.Key, Store(a, dst.Arr, na))
@@ -376,8 +391,8 @@ func (e *Engine) invoke(st *State, recv IfaceV, ifaceT types.Type, m *types.Func
 		for _, a := range args {
 			flat = append(flat, e.flat(a)...)
 		}
-		flat = append(flat, e.flat(rv)...)
-		e.eventNamed(st, m.FullName(), flat)
+		e.eventRes(st, m.FullName(), flat, e.flat(rv))
+		e.assumeExternPost(st, m, rv)
 		e.trustedUsed["extern interface call "+m.FullName()+": modelled as a trace event; assumed not to touch tally state"] = true
 		if e.cur != nil && e.cur.discipline != nil {
 			e.cur.discipline.onExternCall(e, st, m, pos)
@@ -540,12 +555,7 @@ func (e *Engine) applyContract(st *State, fn *ssa.Function, c *Contract, args []
 	// effects
 	e.havocModifies(st, env, c)
 	if c.Emits {
-		st.calls = e.ctx.Fresh("calls", ArrSort(SInt, SEvent))
-		ol := st.callsLen
-		st.callsLen = e.ctx.Fresh("callsLen", SInt)
-		st.assume(Le(ol, st.callsLen))
-		j := T("j!q", SInt)
-		st.assume(Forall([]Term{j}, Implies(And(Le(IntLit(0), j), Lt(j, ol)), Eq(Select(st.calls, j), Select(pre.calls, j)))))
+		st.havocTrace()
 	}
 	if c.Allocs || c.ModAny {
 		st.havocAlloc()
@@ -570,6 +580,16 @@ func (e *Engine) applyContract(st *State, fn *ssa.Function, c *Contract, args []
 		post.result = wrapTyped(rv, sig.Results().At(0).Type())
 	} else {
 		post.result = rv
+	}
+	if len(c.Witness) > 0 {
+		post.vars = map[string]Value{}
+		for k, v := range vars {
+			post.vars[k] = v
+		}
+		for _, w := range c.Witness {
+			t := e.resolveType(pkgOf(fn), w.Type)
+			post.vars[w.Name] = wrapTyped(e.freshValue(st, "wit_"+w.Name, t), t)
+		}
 	}
 	for _, en := range c.Ensures {
 		st.assume(e.evalSpecBool(post, en.Expr))
@@ -769,4 +789,31 @@ func (e *Engine) pureMethodResult(st *State, m *types.Func, recv IfaceV, args []
 		return iv
 	}
 	panic(unsupported("pure method result type " + rt.String()))
+}
+
+// assumeExternPost adds the declared assumptions about the result of an extern
+// interface method ("assume Iface.Method ensures ...").
+func (e *Engine) assumeExternPost(st *State, m *types.Func, rv Value) {
+	recv := m.Type().(*types.Signature).Recv()
+	if recv == nil {
+		return
+	}
+	pkg, name := ifaceName(recv.Type())
+	ps, ok := e.specs[pkg]
+	if !ok {
+		return
+	}
+	cls := ps.ExtPost[name+"."+m.Name()]
+	if len(cls) == 0 {
+		return
+	}
+	sig := m.Type().(*types.Signature)
+	env := &SpecEnv{e: e, st: st, vars: map[string]Value{}, pkg: m.Pkg(), qn: &e.qn, hasRes: true, result: rv}
+	if sig.Results().Len() == 1 {
+		env.result = wrapTyped(rv, sig.Results().At(0).Type())
+	}
+	for _, c := range cls {
+		st.assume(e.evalSpecBool(env, c.Expr))
+		e.trustedUsed["assumed about results of "+m.FullName()+": "+c.Src] = true
+	}
 }
